@@ -259,7 +259,7 @@ pub fn run(prop: &str, tier: &str, replay: Option<&str>) -> i32 {
     }
     // (a) histories: all sequences of operations up to a depth, sequentially in this process
     {
-        let depth = if thorough { 4 } else { 3 };
+        let depth = if thorough { 5 } else { 3 };
         let sec = Section::new(&format!("histories/depth<={}", depth), &format!("every sequence of <= {} operations over {} operations on shared keys and issuers; the output of the last operation must equal the output of the same operation executed first in a fresh process", depth, N_OPS));
         let mut hist: Vec<usize> = Vec::new();
         fn rec(w: &World, sec: &Section, refs: &[String], hist: &mut Vec<usize>, left: usize) {
